@@ -112,6 +112,7 @@ func gepExprType(elemType, src types.Type, indices []Constant) types.Type {
 		// Check if index is of vector type.
 		if indexType, ok := index.Type().(*types.VectorType); ok {
 			idx.VectorLen = indexType.Len
+			idx.Scalable = indexType.Scalable
 		}
 		idxs = append(idxs, idx)
 	}
@@ -175,9 +176,13 @@ func getIndex(index Constant) gep.Index {
 					}
 				}
 			default:
-				// TODO: remove debug output.
-				panic(fmt.Errorf("support for gep index vector element type %T not yet implemented", elem))
-				//return gep.Index{HasVal: false}
+				// Not an integer literal (e.g. undef, poison, zeroinitializer or
+				// a constant expression): the index vector does not have a
+				// concrete value.
+				return gep.Index{
+					HasVal:    false,
+					VectorLen: uint64(len(index.Elems)),
+				}
 			}
 		}
 		return gep.Index{
@@ -193,10 +198,9 @@ func getIndex(index Constant) gep.Index {
 		// should already have been simplified to a form we can handle.
 		return gep.Index{HasVal: false}
 	default:
-		// TODO: add support for more constant expressions.
-		// TODO: remove debug output.
-		panic(fmt.Errorf("support for gep index type %T not yet implemented", index))
-		//return gep.Index{HasVal: false}
+		// Any other constant (e.g. a constant expression): the index does not
+		// have a concrete value.
+		return gep.Index{HasVal: false}
 	}
 }
 
